@@ -3,7 +3,7 @@
 //   xv worker <ID> <tier> <k> <n> <shard>   one worker process
 //   xv replay <ID> <file>             strict replay of one saved case
 use xv_lib::common::*;
-use xv_lib::{props, xs, PropDef};
+use xv_lib::{props, witness, xs, PropDef};
 use std::collections::{BTreeMap, HashSet};
 use std::io::Write;
 use std::process::{Command, Stdio};
@@ -160,6 +160,20 @@ fn replay_cmd(id: &str, file: &str) -> i32 {
         }
     };
     xs::worker_limits();
+    if !r.witness.is_empty() {
+        let bad = witness::run_for(id);
+        return match bad.iter().find(|(n, _)| n == &r.witness) {
+            Some((n, d)) => {
+                println!("REPLAY-FAIL profile={} signature=witness: {}", profile_name(), n);
+                println!("detail: {}", d);
+                1
+            }
+            None => {
+                println!("REPLAY-PASS profile={}", profile_name());
+                0
+            }
+        };
+    }
     let ctx = CaseCtx { want_render: true, tier_thorough: false, release: !cfg!(debug_assertions) };
     let mut ch = Choices::new(&r.choices, r.direct);
     let out = match std::panic::catch_unwind(std::panic::AssertUnwindSafe(|| (p.case)(&mut ch, &ctx))) {
@@ -333,13 +347,25 @@ fn parent(id: &str, tier: &str) -> i32 {
         }
     }
 
+    // ---- witness tier: plain regression inputs of the repaired defects -------
+    let nwitness = witness::count_for(id) as u64;
+    for (name, detail) in witness::run_for(id) {
+        let dir = format!("{}/replays/{}", root, id);
+        let _ = std::fs::create_dir_all(&dir);
+        let path = format!("{}/fail-witness-{}.replay", dir, name);
+        let _ = std::fs::write(&path, format!("property={}\nwitness={}\nsignature=witness: {}\n# detail: {}\n", id, name, name, detail));
+        violation_lines.push(format!("VIOLATION property={} replay={}", id, path));
+        eprintln!("--- violation (witness) signature: witness: {}\n{}", name, detail);
+    }
+    replayed += nwitness;
+
     // ---- replay tier -----------------------------------------------------
     let rdir = format!("{}/replays/{}", root, id);
     let mut files: Vec<String> = std::fs::read_dir(&rdir)
         .map(|d| {
             d.filter_map(|e| e.ok())
                 .map(|e| e.path().to_string_lossy().to_string())
-                .filter(|f| f.ends_with(".replay"))
+                .filter(|f| f.ends_with(".replay") && !f.contains("fail-witness-"))
                 .collect()
         })
         .unwrap_or_default();
